@@ -44,6 +44,10 @@ def gen_cases(rng, n):
         opts.update([{}, {"interior_ids": 1.0}, {"header_ptr": True}, {"interior_ids": 1.0, "header_ptr": True}, {}][i % 5])
         if i % 4 == 1:
             opts["degenerate_locs"] = True
+        if i % 3 == 2:
+            opts["interleaved_ids"] = True
+        if i % 2 == 0:
+            opts["anywhere_flags"] = True
         cases.append((f"gen:{form}:{i}", SC.MapGen(rng, form, **opts).build(), form))
     return cases
 
